@@ -156,3 +156,85 @@ def facts_at(ctx, body, bb):
                         out.append((('!' if neg else '') + 'true', c, None, d.bb))
                     work.append(d.bb)
     return out
+
+
+def counter_loops(an, b):
+    """loops written with an explicit counter — `let mut i = S; while i < E { ..; i += 1 }` or
+    `loop { if i >= E { break } ..; i += 1 }`: i has exactly two definitions reaching the test (the initial value
+    outside the loop, `i + 1` inside it), the increment lies on every cycle, and the loop is left exactly when `i < E`
+    fails.  [{var: the phi term of i as seen inside the loop, init: S, bound: E, header, blocks}]"""
+    out = []
+    loops = an.cfg.loops()
+    for si, t in b.terminators('switch'):
+        if si not in an.cfg.reach or t.get('ty') != 'bool':
+            continue
+        c = an.term_at(si, len(b.blocks[si]['st']), t['o'])
+        neg = False
+        while c[0] == 'un' and c[1] == 'Not':
+            c, neg = c[2], not neg
+        if c[0] != 'bin' or c[1] not in ('Lt', 'Ge', 'Gt', 'Le'):
+            continue
+        lhs, rhs, op = c[2], c[3], c[1]
+        if op in ('Gt', 'Le'):                    # E > i  /  E <= i
+            lhs, rhs = rhs, lhs
+            op = 'Lt' if op == 'Gt' else 'Ge'
+        stay_when_true = (op == 'Lt') != neg      # the branch taken when i < E
+        i_t = strip_casts(lhs, ('IntToInt',))
+        if i_t[0] != 'phi':
+            continue
+        ds = [an.defs[k] for k in i_t[2]]
+        if len(ds) != 2 or any(d.partial or d.kind != 'assign' for d in ds):
+            continue
+        false_t = [tt for v, tt in t['targets'] if v == '0']
+        if not false_t:
+            continue
+        stay, leave = (t['otherwise'], false_t[0]) if stay_when_true else (false_t[0], t['otherwise'])
+        for inc in ds:
+            init = [d for d in ds if d is not inc][0]
+            pinc = poly(an.def_term(inc))
+            if pinc != Poly.leaf(nosite(i_t)) + Poly.const(1) and pinc != poly(i_t) + Poly.const(1):
+                continue
+            hs = [h for h, bl in loops.items() if si in bl and inc.bb in bl and stay in bl and leave not in bl and init.bb not in bl]
+            if not hs or an.cfg.cycle_through(hs[0], loops[hs[0]], [inc.bb]):
+                continue
+            out.append({'var': nosite(i_t), 'init': an.def_term(init), 'bound': rhs, 'header': hs[0], 'blocks': loops[hs[0]]})
+    return out
+
+
+def min_leaves(ctx, b, an, t, depth=0):
+    """operands of a minimum: `a.min(b)`, `cmp::min(a, b)`, nested, through copies, and the if-spelling
+    `if a < b { a } else { b }` (a two-way join where each arm's value is known not to exceed the other's).
+    A term that is no minimum is its own single leaf."""
+    t = strip_all(t)
+    if t[0] == 'call' and isinstance(t[1], str) and (t[1].endswith('Ord::min') or t[1].endswith('cmp::min')) and len(t[2]) == 2:
+        return min_leaves(ctx, b, an, t[2][0], depth) + min_leaves(ctx, b, an, t[2][1], depth)
+    if t[0] == 'phi' and len(t[2]) == 2 and depth < 3:
+        ds = [an.defs[k] for k in t[2]]
+        if all(d.kind in ('assign', 'call') and not d.partial for d in ds):
+            vs = [strip_all(an.def_term(d)) for d in ds]
+            okk = True
+            for d, v, o in ((ds[0], vs[0], vs[1]), (ds[1], vs[1], vs[0])):
+                gs = normalized_guards(ctx, b, d.bb)
+                if not any(op in ('Lt', 'Le', '!Gt', '!Ge') and B is not None and nosite(strip_all(A)) == nosite(v) and nosite(strip_all(B)) == nosite(o) for op, A, B, si in gs):
+                    okk = False
+            if okk:
+                return min_leaves(ctx, b, an, vs[0], depth + 1) + min_leaves(ctx, b, an, vs[1], depth + 1)
+    return [t]
+
+
+def index_loop_bounds(ctx, b, an, idx):
+    """[(start, end)] of the loops whose variable the index term is, exactly (no offset): the payload of next() over a
+    `start..end` range, or the counter of a while/loop counter loop"""
+    i_t = strip_casts(idx, ('IntToInt',))
+    out = []
+    if i_t[0] == 'field' and i_t[4] == 'Some' and is_call(i_t[1], 'Iterator::next'):
+        D0 = Deps(an)
+        D0.closure(i_t[1][2][0])
+        for x in D0.visited:
+            if x[0] == 'agg' and x[2] and x[2].endswith('ops::Range'):
+                f = dict(x[4])
+                if 'start' in f and 'end' in f:
+                    out.append((f['start'], f['end']))
+    else:
+        out = [(cl['init'], cl['bound']) for cl in counter_loops(an, b) if cl['var'] == nosite(i_t)]
+    return out
